@@ -20,7 +20,9 @@ from classy_blocks.modify.reorient.viewpoint import ViewpointReorienter  # noqa:
 
 RULE = (
     "Finder cells: 1-4 shapes (boxes in an arbitrary frame, rows of 2-3 boxes sharing faces, Cylinder, SemiCylinder, "
-    "Frustum, Elbow, Cylinder + chained Cylinder) at size 0.1-30 in separate slots, assembled; 1-4 queries per mesh. "
+    "Frustum, Elbow, Cylinder + chained Cylinder) at size 0.1-30 in separate slots, the whole "
+    "model placed at an offset of 0 / 1e3 / 1e5 sizes (1e3 at most when round shapes are present: their constructors "
+    "test perpendicularity against the absolute TOL) from the origin along a general direction, assembled; 1-4 queries per mesh. "
     "Spheres: centre at / next to (0.3, 3, 30 TOL, 1e-3 S) a mesh vertex or anywhere, radius None (= TOL) or over 3.5 "
     "decades; planes through 3 / 2 / 1 / 0 mesh vertices with a non-unit normal, shifted by 0, 0.3, 3, 30 TOL. Margin "
     "rule: a radius closer than 1e-6 (relative) to a vertex distance is moved to a clear value by construction; a query "
@@ -32,7 +34,8 @@ RULE = (
     "twisted by 45 degrees or by a general angle) joined with mesh.merge_patches in both insertion orders and both "
     "master choices, so the interface holds duplicated vertices; expected = every mesh vertex within TOL of an end-face "
     "corner of the shape's own blocks (positions read from the assembled blocks). Re-orientation: a cube, tapered, jittered (<= 0.15 "
-    "edge), mapped by rotation x anisotropic scaling x shear, viewed from a point near the normal of a drawn face with "
+    "edge), mapped by rotation x anisotropic scaling x shear, placed 0 / 1e3 / 1e5 / 2e6 sizes from the origin (all three "
+    "coordinates large), viewed from a point near the normal of a drawn face with "
     "the ceiling near the normal of a drawn lateral face; every one of the 48 numberings is re-oriented and compared "
     "with the numbering the harness derives from R-HEX. Non-trivial: the query selects a proper non-empty subset; a "
     "non-identity numbering changed the block."
@@ -51,7 +54,9 @@ ASSUMPTIONS = [
     "(either diagonal) beats the best-aligned triangle of any other face by 0.1, and the six chosen faces are distinct "
     "with front/back, top/bottom, left/right opposite; the 8 points are the vertices of their convex hull and every hull "
     "triangle lies in one face",
-    "re-oriented points are copies of the input points: compared to 1e-12 of the block size",
+    "re-oriented points are copies of the input points: compared to 1e-12 of the block size + 8 eps x the largest "
+    "coordinate; offsets stop at 2e6 sizes (coordinates <= 6e7, one ulp = 7.5e-9 < TOL / 10), beyond which the library's "
+    "absolute TOL = 1e-7 comparisons would legitimately meet rounding",
 ]
 
 TOL = 1e-7
@@ -69,6 +74,19 @@ def _normalised(v, fallback):
 
 def rotation_of(fr):
     return rodrigues(_normalised(fr["axis"], [0, 0, 1]), fr["angle"])
+
+
+# placement far from the origin (a metre-sized block at UTM coordinates, a mm part in a large assembly): offset = ratio x size
+# along a direction with all three components >= 0.3
+_offset_dir = st.tuples(*[st.tuples(st.floats(0.3, 1.0), st.sampled_from([1.0, -1.0])).map(lambda t: t[0] * t[1])] * 3).map(list)
+
+
+def _offset(ratios):
+    return st.fixed_dictionaries({"ratio": st.sampled_from(ratios), "dir": _offset_dir})
+
+
+def offset_vector(off, S):
+    return np.zeros(3) if not off else off["ratio"] * S * np.array(off["dir"])
 
 
 _frame = st.fixed_dictionaries({"axis": _vec, "angle": st.floats(-math.pi, math.pi), "jitter": _vec})
@@ -104,11 +122,11 @@ def shape_spec(draw, kinds):
 
 
 @st.composite
-def mesh_spec(draw, kinds, first_kinds=None, max_shapes=4):
+def mesh_spec(draw, kinds, first_kinds=None, max_shapes=4, offsets=(0.0,)):
     n = draw(st.integers(1, max_shapes))
     shapes = [draw(shape_spec(first_kinds or kinds))]
     shapes += [draw(shape_spec(kinds)) for _ in range(n - 1)]
-    return {"S": draw(_size), "shapes": shapes}
+    return {"S": draw(_size), "shapes": shapes, "offset": draw(_offset(list(offsets)))}
 
 
 def build_mesh(spec):
@@ -118,7 +136,7 @@ def build_mesh(spec):
     items, ends = [], []
     for k, sh in enumerate(spec["shapes"]):
         rot = rotation_of(sh["frame"])
-        org = S * (np.array([14.0 * k, 0, 0]) + np.array(sh["frame"]["jitter"]))
+        org = S * (np.array([14.0 * k, 0, 0]) + np.array(sh["frame"]["jitter"])) + offset_vector(spec.get("offset"), S)
         e1, e2, e3 = rot[:, 0], rot[:, 1], rot[:, 2]
         kind = sh["kind"]
         if kind == "box":
@@ -258,7 +276,7 @@ def run_rounds(case, ctx: Ctx, mesh, S, one_query) -> None:
         for qi, q in enumerate(rnd["queries"]):
             nt = one_query(pos, q, {"round": k, "query": qi, "moved": [m[0] for m in moved]}, moved) or nt
     ctx.nt(nt)
-    ctx.label("rounds=%d" % len(case.get("rounds", [])))
+    ctx.label("rounds=%d" % len(case.get("rounds", [])), "offset/size=%g" % (case["mesh"].get("offset") or {"ratio": 0.0})["ratio"])
 
 
 def check_sphere(case, ctx: Ctx) -> None:
@@ -429,7 +447,7 @@ def check_round(case, ctx: Ctx) -> None:
         ctx.label("round:" + type(shape).__name__, "round:" + q["which"], "round:end" if q["end"] else "round:start",
                   "round:n=%d" % len(want))
     ctx.nt(nt)
-    ctx.label("shapes=%d" % len(spec["shapes"]))
+    ctx.label("shapes=%d" % len(spec["shapes"]), "offset/size=%g" % (spec.get("offset") or {"ratio": 0.0})["ratio"])
 
 
 def items_by_spec(spec, items):
@@ -632,7 +650,7 @@ def block_points(g):
         q = CUBE - 0.5
         q[4:, :2] *= g["taper"]
         q = q + jitter
-        p = g["S"] * (q @ A.T) + g["S"] * 3 * np.array(g["frame"]["jitter"])
+        p = g["S"] * (q @ A.T) + g["S"] * 3 * np.array(g["frame"]["jitter"]) + offset_vector(g.get("offset"), g["S"])
         if hex_corner_jacobians(p).min() > 0.05 and hull_is_the_block(p):
             return p
         jitter = jitter * 0.5 if attempt < 3 else jitter * 0
@@ -648,6 +666,7 @@ def block_case(draw):
         "shear": [draw(st.floats(-0.3, 0.3)) for _ in range(3)],
         "taper": draw(st.floats(0.6, 1.4)),
         "jitter": [draw(_vec) for _ in range(8)],
+        "offset": draw(_offset([0.0, 1e3, 1e5, 1e5, 2e6, 2e6])),
     }
     return {
         "block": g,
@@ -704,7 +723,7 @@ def check_reorient(case, ctx: Ctx) -> None:
     observer, ceiling, chosen = vp
     want = p[list(expected_numbering(chosen))]
     size = case["block"]["S"]
-    tol = 1e-12 * size * 10
+    tol = 1e-12 * size * 10 + 8 * np.finfo(float).eps * float(np.abs(p).max())
     dirs = view_directions(p, observer, ceiling)
     results = []
     for k, perm in enumerate(NUMBERINGS):
@@ -748,7 +767,7 @@ def check_reorient(case, ctx: Ctx) -> None:
     ctx.label("front=" + case["front"], "jittered" if np.abs(np.array(g["jitter"])).max() > 0.3 else "regular",
               "sheared" if np.abs(np.array(g["shear"])).max() > 0.1 else "unsheared",
               "identity-expected" if list(expected_numbering(chosen)) == list(range(8)) else "renumbered",
-              "lean=%g" % abs(case.get("lean", 0.0)))
+              "lean=%g" % abs(case.get("lean", 0.0)), "offset/size=%g" % (g.get("offset") or {"ratio": 0.0})["ratio"])
 
 
 # --------------------------------------------------------------------------------------------------
@@ -766,15 +785,15 @@ def _with_queries(mesh_strategy, query_strategy, rounds=True):
 
 
 CELLS = [
-    Cell("C18/sphere/boxes", _with_queries(mesh_spec(("box",)), sphere_query()), check_sphere, 500, 10000,
+    Cell("C18/sphere/boxes", _with_queries(mesh_spec(("box",), offsets=(0.0, 0.0, 1e3, 1e5)), sphere_query()), check_sphere, 500, 10000,
          "find_in_sphere on 1-4 rows of boxes: returned set == brute-force selection (margin rule on the radius)"),
-    Cell("C18/sphere/mixed", _with_queries(mesh_spec(_ALL, max_shapes=3), sphere_query()), check_sphere, 120, 2400,
+    Cell("C18/sphere/mixed", _with_queries(mesh_spec(_ALL, max_shapes=3, offsets=(0.0, 0.0, 1e3)), sphere_query()), check_sphere, 120, 2400,
          "find_in_sphere on meshes with round shapes"),
-    Cell("C18/plane/boxes", _with_queries(mesh_spec(("box",)), plane_query()), check_plane, 500, 10000,
+    Cell("C18/plane/boxes", _with_queries(mesh_spec(("box",), offsets=(0.0, 0.0, 1e3, 1e5)), plane_query()), check_plane, 500, 10000,
          "find_on_plane on rows of boxes: planes through 0-3 vertices, shifted across TOL, non-unit normals"),
-    Cell("C18/plane/mixed", _with_queries(mesh_spec(_ALL, max_shapes=3), plane_query()), check_plane, 120, 2400,
+    Cell("C18/plane/mixed", _with_queries(mesh_spec(_ALL, max_shapes=3, offsets=(0.0, 0.0, 1e3)), plane_query()), check_plane, 120, 2400,
          "find_on_plane on meshes with round shapes (end faces hold 17 coplanar vertices)"),
-    Cell("C18/round", _with_queries(mesh_spec(_ALL, first_kinds=ROUND_KINDS, max_shapes=3), _round_query, rounds=False), check_round, 160, 3200,
+    Cell("C18/round", _with_queries(mesh_spec(_ALL, first_kinds=ROUND_KINDS, max_shapes=3, offsets=(0.0, 0.0, 1e3)), _round_query, rounds=False), check_round, 160, 3200,
          "RoundSolidFinder.find_core / find_shell of both end faces of Cylinder, SemiCylinder, Frustum, Elbow, chained "
          "cylinders == vertices on the end plane inside / on the rim circle"),
     Cell("C18/round-merged", merged_case(), check_round_merged, 60, 1200,
